@@ -9,7 +9,7 @@
  * threads start, and per-thread result slots read after join.
  *
  * usage: tsan_stress <threads> <iterations> <seed> <pki-dir> <virtual-time> <mode>
- *        mode: bit0 primitives, bit1 handshakes
+ *        mode: bit0 primitives, bit1 handshakes, bit3 second primitive family (bit2 is internal: start barrier)
  */
 #define _GNU_SOURCE
 #include <pthread.h>
@@ -31,6 +31,15 @@
 #include <gmssl/x509.h>
 #include <gmssl/tls.h>
 #include <gmssl/rand.h>
+#include <gmssl/aes.h>
+#include <gmssl/zuc.h>
+#include <gmssl/chacha20.h>
+#include <gmssl/base64.h>
+#include <gmssl/hex.h>
+#include <gmssl/pem.h>
+#include <gmssl/hkdf.h>
+#include <gmssl/cms.h>
+#include <gmssl/x509_cer.h>
 
 /* shim API (vfshim.c is compiled into this program) */
 void vf_entropy_seed(uint64_t seed);
@@ -180,6 +189,91 @@ static void primitives(slot_t *s, prng_t *pr, int it)
 	}
 }
 
+/* second family: the remaining cipher families, text codecs, KDFs, time conversion, X.509 / CMS signing and printing */
+static void primitives2(slot_t *s, prng_t *pr, int it)
+{
+	uint8_t msg[1024], out[1400], out2[1400], key[32], iv[16], tag[16];
+	size_t n = 16 + nx(pr) % 900, l1;
+	fill(pr, msg, sizeof msg); fill(pr, key, 32); fill(pr, iv, 16);
+	{
+		AES_KEY ak; aes_set_encrypt_key(&ak, key, (it % 3) == 0 ? 16 : (it % 3) == 1 ? 24 : 32);
+		if (aes_gcm_encrypt(&ak, iv, 12, msg, 9, msg, n, out, 16, tag) == 1) { fold(s, out, n); fold(s, tag, 16);
+			fold_int(s, aes_gcm_decrypt(&ak, iv, 12, msg, 9, out, n, tag, 16, out2)); }
+		ZUC_STATE zs; zuc_init(&zs, key, iv); zuc_encrypt(&zs, msg, n, out); fold(s, out, n);
+		ZUC_MAC_CTX zm; uint8_t mac[4]; zuc_mac_init(&zm, key, iv); zuc_mac_update(&zm, msg, n & ~3u); zuc_mac_finish(&zm, msg + (n & ~3u), (n & 3) * 8, mac); fold(s, mac, 4);
+		CHACHA20_STATE cs; chacha20_init(&cs, key, iv, 1); chacha20_generate_keystream(&cs, 3, out); fold(s, out, 3 * 64);
+	}
+	{
+		SM4_KEY ek, dk, k2; uint8_t v[16];
+		sm4_set_encrypt_key(&ek, key); sm4_set_decrypt_key(&dk, key); sm4_set_encrypt_key(&k2, key + 16);
+		if (sm4_ccm_encrypt(&ek, iv, 12, msg, 7, msg, n, out, 12, tag) == 1) { fold(s, out, n); fold(s, tag, 12);
+			fold_int(s, sm4_ccm_decrypt(&ek, iv, 12, msg, 7, out, n, tag, 12, out2)); }
+		if (sm4_xts_encrypt(&ek, &k2, iv, msg, n, out) == 1) { fold(s, out, n); fold_int(s, sm4_xts_decrypt(&dk, &k2, iv, out, n, out2)); fold(s, out2, n); }
+		memcpy(v, iv, 16); sm4_cfb_encrypt(&ek, 1 + it % 16, v, msg, n, out); fold(s, out, n);
+		memcpy(v, iv, 16); sm4_ofb_encrypt(&ek, v, msg, n, out); fold(s, out, n);
+	}
+	{
+		uint8_t b64[1500], back[1100]; int bl = base64_encode_block(b64, msg, (int)(n % 700)); fold(s, b64, bl > 0 ? (size_t)bl : 0);
+		int dl = base64_decode_block(back, b64, bl); fold_int(s, dl);
+		char hex[129]; for (int i = 0; i < 64; i++) sprintf(hex + 2 * i, "%02x", msg[i]); size_t hl = 0;
+		fold_int(s, hex_to_bytes(hex, 128, back, &hl)); fold(s, back, hl);
+		char *mem = NULL; size_t memlen = 0; FILE *fp = open_memstream(&mem, &memlen);
+		if (fp) { fold_int(s, pem_write(fp, "CERTIFICATE", msg, n)); fclose(fp);
+			FILE *rp = fmemopen(mem, memlen, "r"); size_t pl = 0;
+			if (rp) { fold_int(s, pem_read(rp, "CERTIFICATE", out, &pl, sizeof out)); fold(s, out, pl); fclose(rp); }
+			free(mem); }
+	}
+	{
+		uint8_t okm[80], prk[64]; size_t pl = 0;
+		fold_int(s, sm3_pbkdf2((char *)msg, 12, key, 16, 50 + it % 7, 40, okm)); fold(s, okm, 40);
+		fold_int(s, hkdf_extract(DIGEST_sha256(), key, 20, msg, 33, prk, &pl)); fold(s, prk, pl);
+		fold_int(s, hkdf_expand(DIGEST_sha256(), prk, pl, msg, 10, 70, okm)); fold(s, okm, 70);
+		fold_int(s, sm2_kdf(msg, 48, 75, okm)); fold(s, okm, 75);
+	}
+	{
+		/* calendar conversion of leap and non-leap dates (library-internal month tables) */
+		time_t tv = (time_t)(nx(pr) % 7000000000ull), back = 0; uint8_t der[32]; uint8_t *p = der; size_t dl = 0; const uint8_t *cp = der;
+		fold_int(s, asn1_generalized_time_to_der(tv, &p, &dl)); fold(s, der, dl);
+		fold_int(s, asn1_generalized_time_from_der(&back, &cp, &dl)); fold_int(s, (long)back);
+	}
+	if ((it & 3) == 1) {
+		/* X.509 and CMS signing with a thread-private key, verification, printing into a thread-private stream */
+		SM2_KEY k; uint8_t name[256]; size_t nl = 0; uint8_t serial[8]; uint8_t cert[1024]; uint8_t *p = cert; size_t cl = 0;
+		uint8_t cms[4096]; size_t cmsl = 0; time_t now = time(NULL);
+		fill(pr, serial, 8); serial[0] &= 0x7f; serial[0] |= 1;
+		fold_int(s, sm2_key_generate(&k));
+		fold_int(s, x509_name_set(name, &nl, sizeof name, "CN", "Beijing", "Haidian", "PKU", "CS", "thread"));
+		fold_int(s, x509_cert_sign_to_der(X509_version_v3, serial, 8, OID_sm2sign_with_sm3, name, nl, now - 100 - (time_t)(nx(pr) % 900000000), now + 86400 + (time_t)(nx(pr) % 900000000),
+			name, nl, &k, NULL, 0, NULL, 0, NULL, 0, &k, SM2_DEFAULT_ID, SM2_DEFAULT_ID_LENGTH, &p, &cl));
+		fold_int(s, (long)cl > 0);
+		fold_int(s, x509_cert_verify_by_ca_cert(cert, cl, cert, cl, SM2_DEFAULT_ID, SM2_DEFAULT_ID_LENGTH));
+		/* printing into a thread-private stream: the text is a result like any other */
+		{ char *txt = NULL; size_t tl = 0; FILE *dn = open_memstream(&txt, &tl);
+		  if (dn) { fold_int(s, x509_cert_print(dn, 0, 0, "cert", cert, cl)); fold_int(s, sm2_key_print(dn, 0, 0, "k", &k)); fclose(dn); fold(s, txt, tl); free(txt); } }
+		CMS_CERTS_AND_KEY sg = { cert, cl, &k };
+		fold_int(s, cms_sign(cms, &cmsl, &sg, 1, OID_cms_data, msg, 100, NULL, 0));
+		{ int ct; const uint8_t *c, *cs, *cr, *si; size_t cln, csl, crl, sil;
+		  fold_int(s, cms_verify(cms, cmsl, NULL, 0, NULL, 0, &ct, &c, &cln, &cs, &csl, &cr, &crl, &si, &sil)); }
+		{ uint8_t env[4096]; size_t envl = 0; uint8_t dec[256]; size_t decl = 0; int ct; const uint8_t *ri, *s1, *s2; size_t ril, s1l, s2l;
+		  fold_int(s, cms_envelop(env, &envl, cert, cl, OID_sm4_cbc, key, 16, iv, 16, OID_cms_data, msg, 100, NULL, 0, NULL, 0));
+		  fold_int(s, cms_deenvelop(env, envl, &k, cert, cl, &ct, dec, &decl, &ri, &ril, &s1, &s1l, &s2, &s2l)); fold(s, dec, decl <= sizeof dec ? decl : 0); }
+		/* ECDH between two thread-private keys */
+		{ SM2_KEY k2; uint8_t pub[65], sh1[64], sh2[64]; fold_int(s, sm2_key_generate(&k2));
+		  sm2_z256_point_to_uncompressed_octets(&k2.public_key, pub); fold_int(s, sm2_ecdh(&k, pub, 65, sh1));
+		  sm2_z256_point_to_uncompressed_octets(&k.public_key, pub); fold_int(s, sm2_ecdh(&k2, pub, 65, sh2)); fold_int(s, memcmp(sh1, sh2, 64)); }
+	}
+	if ((it & 15) == 3) {
+		/* SM9 key exchange between two thread-private parties */
+		SM9_EXCH_MASTER_KEY mk; SM9_EXCH_KEY ka, kb; SM9_Z256_POINT RA, RB; sm9_z256_t rA; uint8_t skA[32], skB[32];
+		fold_int(s, sm9_exch_master_key_generate(&mk));
+		fold_int(s, sm9_exch_master_key_extract_key(&mk, "alice", 5, &ka)); fold_int(s, sm9_exch_master_key_extract_key(&mk, "bob", 3, &kb));
+		fold_int(s, sm9_exch_step_1A(&mk, "bob", 3, &RA, rA));
+		fold_int(s, sm9_exch_step_1B(&mk, "alice", 5, "bob", 3, &kb, &RA, &RB, skB, 32));
+		fold_int(s, sm9_exch_step_2A(&mk, "alice", 5, "bob", 3, &ka, rA, &RA, &RB, skA, 32));
+		fold_int(s, memcmp(skA, skB, 32));
+	}
+}
+
 /* ---- handshakes: thread 2k = server, 2k+1 = client ---------------------------------- */
 static int pair_socks[MAXT];
 static const int protos[3] = { TLS_protocol_tlcp, TLS_protocol_tls12, TLS_protocol_tls13 };
@@ -245,6 +339,7 @@ static void *worker(void *arg)
 	if (s->mode & 4) pthread_barrier_wait(&barrier);
 	for (int it = 0; it < s->iters; it++) {
 		if (s->mode & 1) primitives(s, &pr, it);
+		if (s->mode & 8) primitives2(s, &pr, it);
 		if ((nx(&pr) & 7) == 0) sched_yield();
 	}
 	if (s->mode & 2) {
@@ -265,7 +360,7 @@ int main(int argc, char **argv)
 	if (argc < 7) { fprintf(stderr, "usage\n"); return 2; }
 	int T = atoi(argv[1]), iters = atoi(argv[2]); uint64_t seed = strtoull(argv[3], 0, 10);
 	snprintf(pki_dir, sizeof pki_dir, "%s", argv[4]);
-	long vt = atol(argv[5]); int mode = atoi(argv[6]);
+	long vt = atol(argv[5]); int mode = atoi(argv[6]) & ~4;   /* bit2 (start barrier) is set by the concurrent phase itself */
 	if (T < 2 || T > MAXT || (T & 1)) return 2;
 	if (argc > 7) { trace_id = atoi(argv[7]); trace[0] = calloc(200000, sizeof(*trace[0])); trace[1] = calloc(200000, sizeof(*trace[1])); }
 	vf_time_set(vt);
